@@ -29,6 +29,13 @@ const (
 	kLst
 	kVec
 	kTl
+	// outside the universe of the predicates: hash-table keys (signed / unsigned byte) and type cases only
+	kSB  // *slip.SignedByte made by (coerce z 'signed-byte), value n.z inside int64
+	kUB  // *slip.UnsignedByte made by (coerce z 'unsigned-byte), value n.z >= 0
+	kOct // slip.Octet
+	kBit // slip.Bit
+	kLF  // *slip.LongFloat
+	kCpx // slip.Complex
 )
 
 type node struct {
@@ -42,16 +49,22 @@ type node struct {
 	v    *node // kTl
 }
 
-func nFix(z int64) *node       { return &node{k: kFix, z: big.NewInt(z)} }
-func nBig(z *big.Int) *node    { return &node{k: kBig, z: new(big.Int).Set(z)} }
-func nF64(f float64) *node     { return &node{k: kF64, f: f} }
-func nF32(f float32) *node     { return &node{k: kF32, f: float64(f)} }
-func nChr(r rune) *node        { return &node{k: kChr, r: r} }
-func nStr(s string) *node      { return &node{k: kStr, s: s} }
-func nSym(s string) *node      { return &node{k: kSym, s: s} }
-func nLst(kids ...*node) *node { return &node{k: kLst, kids: kids} }
-func nVec(kids ...*node) *node { return &node{k: kVec, kids: kids} }
-func nTl(v *node) *node        { return &node{k: kTl, v: v} }
+func nFix(z int64) *node           { return &node{k: kFix, z: big.NewInt(z)} }
+func nBig(z *big.Int) *node        { return &node{k: kBig, z: new(big.Int).Set(z)} }
+func nF64(f float64) *node         { return &node{k: kF64, f: f} }
+func nF32(f float32) *node         { return &node{k: kF32, f: float64(f)} }
+func nChr(r rune) *node            { return &node{k: kChr, r: r} }
+func nStr(s string) *node          { return &node{k: kStr, s: s} }
+func nSym(s string) *node          { return &node{k: kSym, s: s} }
+func nLst(kids ...*node) *node     { return &node{k: kLst, kids: kids} }
+func nVec(kids ...*node) *node     { return &node{k: kVec, kids: kids} }
+func nTl(v *node) *node            { return &node{k: kTl, v: v} }
+func nSB(z int64) *node            { return &node{k: kSB, z: big.NewInt(z)} }
+func nUB(z int64) *node            { return &node{k: kUB, z: big.NewInt(z)} }
+func nOther(k kind, z int64) *node { return &node{k: k, z: big.NewInt(z), f: float64(z) + 0.5} }
+
+// extra: a node of a kind outside the universe of the predicates (no Gallina term of type Model.obj)
+func (n *node) extra() bool { return n.k >= kSB }
 
 // nRat returns the ratio n/d in lowest terms, or the integer it equals (as slip does).
 func nRat(n, d *big.Int) *node {
@@ -118,6 +131,18 @@ func (n *node) build() slip.Object {
 		return slip.NewVector(len(l), slip.TrueSymbol, nil, l, true)
 	case kTl:
 		return slip.Tail{Value: n.v.build()}
+	case kSB:
+		return slip.Coerce(slip.Fixnum(n.z.Int64()), slip.SignedByteSymbol)
+	case kUB:
+		return slip.Coerce(slip.Fixnum(n.z.Int64()), slip.UnsignedByteSymbol)
+	case kOct:
+		return slip.Octet(byte(n.z.Int64()))
+	case kBit:
+		return slip.Bit(byte(n.z.Int64() & 1))
+	case kLF:
+		return (*slip.LongFloat)(big.NewFloat(n.f))
+	case kCpx:
+		return slip.Complex(complex(n.f, 2))
 	}
 	panic("kind")
 }
@@ -224,6 +249,18 @@ func (n *node) show() string {
 		return "(" + strings.Join(items, " ") + ")"
 	case kTl:
 		return ". " + n.v.show()
+	case kSB:
+		return n.z.String() + "[signed-byte]"
+	case kUB:
+		return n.z.String() + "[unsigned-byte]"
+	case kOct:
+		return n.z.String() + "[octet]"
+	case kBit:
+		return fmt.Sprint(n.z.Int64()&1) + "[bit]"
+	case kLF:
+		return fmt.Sprintf("%gL0", n.f)
+	case kCpx:
+		return fmt.Sprintf("#C(%g 2)", n.f)
 	}
 	return "?"
 }
@@ -277,6 +314,18 @@ func (n *node) kindName() string {
 		return "list"
 	case kVec:
 		return "vector"
+	case kSB:
+		return "signed-byte"
+	case kUB:
+		return "unsigned-byte"
+	case kOct:
+		return "octet"
+	case kBit:
+		return "bit"
+	case kLF:
+		return "long-float"
+	case kCpx:
+		return "complex"
 	}
 	return "?"
 }
@@ -303,6 +352,17 @@ func (w words) id(o slip.Object) int {
 	}
 	w[p] = len(w)
 	return w[p]
+}
+
+// keyTerm: a hash-table key as a Gallina term of type Model.tkey.
+func keyTerm(r aref, w words) string {
+	switch r.n.k {
+	case kSB:
+		return fmt.Sprintf("(TByt false %s %d%%N)", common.GZs(r.n.z.String()), w.id(r.o))
+	case kUB:
+		return fmt.Sprintf("(TByt true %s %d%%N)", common.GZs(r.n.z.String()), w.id(r.o))
+	}
+	return "(TRef " + refTerm(r, w) + ")"
 }
 
 func refTerm(r aref, w words) string {
@@ -349,7 +409,7 @@ var stringPool = []string{
 	"ABCDEFGHIJKLMNOPQRSTUVWXYZabcdefghijklmnopqrstuvwxyzabcdefghijklmnopqrstuvwxyz",
 	"abcdefghijklmnopqrstuvwxyzabcdefghijklmnopqrstuvwxyzabcdefghijkl",  // 64 bytes: the longest bare token
 	"abcdefghijklmnopqrstuvwxyzabcdefghijklmnopqrstuvwxyzabcdefghijklm", // 65 bytes
-	"Kbcdefghijklmnopqrstuvwxyzabcdefghijklmnopqrstuvwxyzabcdefghijk", // 63 code points, 65 bytes
+	"Kbcdefghijklmnopqrstuvwxyzabcdefghijklmnopqrstuvwxyzabcdefghijk",   // 63 code points, 65 bytes
 }
 
 var symbolPool = []string{"abc", "ABC", "Abc", "foo", "Foo", "a", "A", "k", "K", "K", ":key", ":KEY", "x-y", "X-Y", "nil-ish", "t1", "car", "CAR"}
